@@ -10,6 +10,10 @@ package main
 //     sample, once more in a brand-new process (Case.Fresh); all answers for one
 //     test program must agree (Group) and agree with the model, which only sees
 //     the run under test (Case.ModelReq).
+// (b') shared-arguments: the same, with the SAME selector slice / file list objects handed to the
+//     consecutive runs of a `seq` request (impl.go seqShared): a run must not modify its arguments.
+// (b") o-file-history: the real binary run two or three times with -o onto the same path; the last
+//     run must leave what it leaves on a fresh path.
 // (c) raw-byte-keys: objects whose keys are NOT valid UTF-8 (string literals of the
 //     program text are taken byte for byte: bytes 0x80-0xFF, overlong forms, lone
 //     continuation bytes, truncated sequences, surrogates, U+FFFD itself), in
@@ -19,6 +23,7 @@ package main
 import (
 	"fmt"
 	"math/rand"
+	"os"
 	"sort"
 	"strconv"
 	"strings"
@@ -592,5 +597,318 @@ func init() {
 					NonTrivial: func(i Resp) bool { return i["class"] == "ok" || i["class"] == "runtime" }})
 			}
 		},
+	})
+}
+
+// ---- shared-arguments -----------------------------------------------------------------
+
+var c10BlankSels = []string{"", " ", "  ", "\t", "\n", " \t\n "}
+
+var c10GoodSels = []string{"$.a", "$.b", "$", "$.a[0]", "$.b[0]", "$.c", "$.c.z", "[$.a, $.b]", "$.a[1]", "{k: $.b}", "$.nope", " $.a", "$.b ", "\t$.c\n", "$.a.length()", "\"lit\"", "1 + 1"}
+
+const c10ArgDoc = `{"a": [1, 2], "b": [3], "c": {"z": 0, "y": [4, 5]}}`
+
+// c10SelList: a selector list of one of the shapes an argument-rewriting run would disturb.
+func c10SelList(r *rand.Rand) ([]string, string) {
+	good := func() string { return pick(r, c10GoodSels) }
+	blank := func() string { return pick(r, c10BlankSels) }
+	var l []string
+	shape := pick(r, []string{"blank-first", "blank-first", "blank-middle", "blanks-many", "blank-last", "long-blanks", "single-blank", "all-blank",
+		"duplicates", "duplicates", "duplicates-adjacent", "unsorted", "unsorted", "long", "long", "padded", "plain", "plain"})
+	switch shape {
+	case "blank-first":
+		l = []string{blank()}
+		for k := 1 + r.Intn(3); k > 0; k-- {
+			l = append(l, good())
+		}
+	case "blank-middle":
+		l = []string{good(), blank(), good()}
+		if chance(r, 0.5) {
+			l = append(l, good())
+		}
+	case "blanks-many":
+		for k := 3 + r.Intn(5); k > 0; k-- {
+			if chance(r, 0.5) {
+				l = append(l, blank())
+			} else {
+				l = append(l, good())
+			}
+		}
+		l = append(l, good())
+	case "blank-last":
+		l = []string{good(), good(), blank()}
+	case "duplicates":
+		a, b := good(), good()
+		l = []string{a, b, a, good(), b, a}[:3+r.Intn(4)]
+	case "duplicates-adjacent":
+		a := good()
+		l = []string{a, a, good(), a, a}[:2+r.Intn(4)]
+	case "unsorted":
+		l = []string{"$.c", "$.b", "$.a", "$", "$.a[1]", "$.a[0]"}[:2+r.Intn(5)]
+		if chance(r, 0.5) {
+			r.Shuffle(len(l), func(i, j int) { l[i], l[j] = l[j], l[i] })
+		}
+	case "long", "long-blanks":
+		n := pick(r, []int{8, 16, 17, 33, 64})
+		for k := 0; k < n; k++ {
+			if shape == "long-blanks" && (k == 0 || chance(r, 0.2)) {
+				l = append(l, blank())
+			} else {
+				l = append(l, good())
+			}
+		}
+	case "padded":
+		l = []string{" $.a ", "\t$.b", "$.c\n", "  $  "}[:1+r.Intn(4)]
+	case "single-blank":
+		l = []string{pick(r, c10BlankSels[1:])} // a single empty selector cannot be written in a request
+	case "all-blank":
+		l = []string{blank(), blank(), pick(r, c10BlankSels[1:])}
+	default:
+		for k := 1 + r.Intn(3); k > 0; k-- {
+			l = append(l, good())
+		}
+	}
+	return l, shape
+}
+
+var c10ArgProgs = []string{
+	"{ print }",
+	"{ print $index, $ }",
+	"BEGIN { print \"start\" } { n++; print n, $ } END { print \"end\", n }",
+	"BEGINFILE { print \"B\", $file, $ } ENDFILE { print \"E\" }",
+	"{ $ = [$] }",
+	"$ is number { s += $ } END { print s }",
+	"BEGIN { print \"only begin\" }",
+	// runs that end early or fail: whatever they did to their arguments stays done
+	"{ print $; exit }",
+	"{ print $; x = 1 / 0 }",
+	"{ n++; if (n == 2) { x = nope() }\n print n }",
+	"{ print ",
+}
+
+func c10SharedArguments(r *rand.Rand, tier string, emit func(Case)) {
+	n := tierN(tier, 700, 8000)
+	for i := 0; i < n; i++ {
+		sels, shape := c10SelList(r)
+		// the file list: one to four files, unsorted names, duplicates, empty files
+		var files []File
+		fshape := "one file"
+		switch r.Intn(6) {
+		case 0:
+			fshape = "unsorted, a duplicate name, an empty file"
+			files = []File{{Name: "z.json", Data: []byte(c10ArgDoc)}, {Name: "a.json", Data: []byte(`{"a": [7], "b": [8, 9], "c": {}}`)}, {Name: "z.json", Data: []byte(c10ArgDoc)}, {Name: "", Data: nil}}[:2+r.Intn(3)]
+		case 1:
+			fshape = "an empty file first, names with blanks"
+			files = []File{{Name: " ", Data: []byte(" ")}, {Name: " b.json ", Data: []byte(c10ArgDoc)}, {Name: "a.json", Data: []byte(`{"a": "x", "b": null, "c": 1}`)}}
+		default:
+			files = []File{{Name: "in.json", Data: []byte(c10ArgDoc)}}
+		}
+		prog := pick(r, c10ArgProgs)
+		wantJSON := len(files) == 1 && chance(r, 0.5)
+		test := RunReq(prog, sels, files, wantJSON)
+		// the history: the same request again and again, or other programs with the SAME
+		// selector list and file list, or the same list with another document
+		reps := 1 + r.Intn(3)
+		var subs, hist []string
+		for k := 0; k < reps; k++ {
+			switch r.Intn(3) {
+			case 0:
+				p2 := pick(r, c10ArgProgs)
+				subs = append(subs, RunReq(p2, sels, files, wantJSON))
+				hist = append(hist, "same selectors and files, program "+p2)
+			case 1:
+				if chance(r, 0.5) {
+					subs = append(subs, RunReq(prog, sels, []File{{Name: "other.json", Data: []byte(`{"a": [], "b": [0], "c": {"z": 1}}`)}}, false))
+					hist = append(hist, "same selectors, another file")
+				} else {
+					subs = append(subs, RunReq(prog, nil, files, false))
+					hist = append(hist, "same files, no selectors")
+				}
+			default:
+				subs = append(subs, test)
+				hist = append(hist, "the same request")
+			}
+		}
+		subs = append(subs, test)
+		quoted := make([]string, len(sels))
+		for k, x := range sels {
+			quoted[k] = strconv.Quote(x)
+		}
+		var fnames []string
+		for _, f := range files {
+			fnames = append(fnames, strconv.Quote(f.Name))
+		}
+		g := fmt.Sprintf("args-%05d", i)
+		meta := metaProg(prog, "selectors", strings.Join(quoted, " "), "selector list", shape, "files", strings.Join(fnames, " ")+" ("+fshape+")", "history", strings.Join(hist, "  |||  "))
+		noMod := func(i Resp) string {
+			if i["argsmod"] != "" {
+				return "the run (or an earlier run of the sequence) modified the caller's " + i["argsmod"] + " slice"
+			}
+			return ""
+		}
+		// the run alone (compared with the model), then after the history with shared argument objects
+		emit(Case{ID: g + "/alone", Req: test, Fields: c10Fields, Meta: meta, Group: g, GroupFields: c10Fields, Oracle: noMod,
+			NonTrivial: func(i Resp) bool { return i["class"] != "badrequest" }})
+		emit(Case{ID: g + "/shared", Req: "seq " + strings.Join(subs, "|"), ModelReq: test, Fields: c10Fields, Meta: meta, Group: g, GroupFields: c10Fields,
+			Fresh: true, Oracle: noMod, NonTrivial: func(i Resp) bool { return i["class"] != "badrequest" }})
+	}
+}
+
+// ---- o-file-history --------------------------------------------------------------------
+
+type c10ORun struct {
+	prog string
+	doc  string
+}
+
+func c10OFileHistory(r *rand.Rand, tier string, emit func(Case)) {
+	if os.Getenv("JQAWK_BIN") == "" {
+		emit(Case{ID: "no-binary", Req: "cli - - - -", ImplOnly: true, Oracle: c14Basic,
+			Meta: map[string]string{"problem": "env JQAWK_BIN is not set; this family runs the real binary"}})
+		return
+	}
+	n := tierN(tier, 60, 1500)
+	cliFields := []string{"exit", "out", "err", "ofile", "ofexists"}
+	mkRun := func(size string) c10ORun {
+		// documents of very different sizes, programs that keep / grow / shrink / replace them
+		var doc string
+		switch size {
+		case "small":
+			doc = pick(r, []string{`[{"x": 1}]`, `1`, `"s"`, `[]`, `{}`, `null`, `{"a": 1}`, `[1, 2]`})
+		case "big":
+			recs := make([]string, 3+r.Intn(30))
+			for k := range recs {
+				recs[k] = fmt.Sprintf(`{"name": %s, "id": %d, "tags": ["a", "b", "c"], "notes": %s}`, jsonString(pick(r, []string{"alligator", "someone else", "é"})), k, jsonString(strings.Repeat("free text ", r.Intn(20))))
+			}
+			doc = "[" + strings.Join(recs, ", ") + "]"
+		case "huge":
+			doc = `{"blob": ` + jsonString(strings.Repeat("0123456789abcdef", 300+r.Intn(5000))) + `, "n": [1, 2, 3]}`
+		case "same-size":
+			// the JSON written has the same length whatever the digit: only the content differs
+			return c10ORun{pick(r, []string{`{ }`, ``, `{ $.seen = true }`}), fmt.Sprintf(`[{"x": %d, "name": "n%d"}, %d]`, r.Intn(10), r.Intn(10), r.Intn(10))}
+		default:
+			doc = c14ODoc(r)
+		}
+		prog := pick(r, []string{`{ }`, ``, `{ $.x++ }`, `{ $.seen = true }`, `$ is object { $.added = "some more text" }`, `{ $ = [$, $] }`, `{ $ = 1 }`, `BEGINFILE { $ = {} }`,
+			`{ print "seen", $index }`, `BEGIN { print "start" } END { print "done" }`, `$ is object { $ = $.pluck("id") }`})
+		return c10ORun{prog, doc}
+	}
+	failing := []string{`{ x = 1 / 0 }`, `{ print `, `BEGIN { exit }`, `{ $.self = $ }`}
+	for i := 0; i < n; i++ {
+		plan := pick(r, [][]string{{"big", "small"}, {"big", "small"}, {"huge", "small"}, {"small", "big"}, {"huge", "big", "small"}, {"small", "big", "small"}, {"big", "big"}, {"rand", "rand"}, {"rand", "rand", "rand"}, {"huge", "rand"}, {"big", "rand", "small"}, {"same-size", "same-size"}, {"same-size", "same-size", "same-size"}})
+		runs := make([]c10ORun, len(plan))
+		for k, sz := range plan {
+			runs[k] = mkRun(sz)
+		}
+		lastFails, earlierFails := chance(r, 0.12), chance(r, 0.1)
+		if lastFails {
+			runs[len(runs)-1].prog = pick(r, failing)
+		}
+		if earlierFails {
+			runs[r.Intn(len(runs)-1)].prog = pick(r, failing)
+		}
+		target := pick(r, []string{"out.json", "out.json", "result", "sub/o.json", "o,1.json"})
+		var disk []CliFile
+		if strings.HasPrefix(target, "sub/") {
+			disk = append(disk, CliFile{Name: "sub", Dir: true})
+		}
+		argvs := make([][]string, len(runs))
+		for k, run := range runs {
+			name := fmt.Sprintf("in%d.json", k+1)
+			disk = append(disk, CliFile{Name: name, Data: []byte(run.doc)})
+			argvs[k] = append(c14Flag(r, "o", target), run.prog, name)
+		}
+		last := len(runs) - 1
+		// what each run writes (the library in the generator); what the file holds before the last run
+		var before []byte
+		beforeExists := false
+		var sizes []string
+		for k, run := range runs {
+			ref := c14InProc(run.prog, nil, []File{{Name: fmt.Sprintf("in%d.json", k+1), Data: []byte(run.doc)}}, true)
+			ok := ref["class"] == "ok" && ref["json"] != "ERR"
+			if ok {
+				sizes = append(sizes, fmt.Sprint(len(ref.Bytes("json"))))
+			} else {
+				sizes = append(sizes, "fails")
+			}
+			if k < last && ok {
+				before, beforeExists = ref.Bytes("json"), true
+			}
+		}
+		ref := c14InProc(runs[last].prog, nil, []File{{Name: fmt.Sprintf("in%d.json", last+1), Data: []byte(runs[last].doc)}}, true)
+		lastOK := ref["class"] == "ok" && ref["json"] != "ERR"
+		wantJS := string(ref.Bytes("json"))
+		g := fmt.Sprintf("ohist-%d", i)
+		var hist []string
+		for k := range runs {
+			hist = append(hist, strings.Join(argvs[k], " ␣ "))
+		}
+		meta := func(what string) map[string]string {
+			return metaProg(runs[last].prog, "runs, in order", strings.Join(hist, "   THEN   "), "sizes of the JSON the runs write", strings.Join(sizes, " then "), "variant", what, "last input", short(runs[last].doc))
+		}
+		freshReq := CliReq(argvs[last], nil, false, disk, target)
+		oracle := func(histFile bool) func(Resp) string {
+			return func(i Resp) string {
+				if w := c14Basic(i); w != "" {
+					return w
+				}
+				if lastOK {
+					if i["exit"] != "0" {
+						return "the library run succeeds, the binary exits with " + i["exit"] + ": " + short(string(i.Bytes("stderr")))
+					}
+					if got := string(i.Bytes("ofile")); got != wantJS {
+						return fmt.Sprintf("after the last run the -o file holds %d bytes %q; on a fresh path the run writes %d bytes %q (GetRootJson)", len(got), short(got), len(wantJS), short(wantJS))
+					}
+					return ""
+				}
+				if i["exit"] == "0" {
+					return "the library run fails, the binary exits with 0"
+				}
+				if histFile && beforeExists && string(i.Bytes("ofile")) != string(before) {
+					return "the last run failed but the -o file left by the earlier run was changed"
+				}
+				if (!histFile || !beforeExists) && i["ofexists"] == "1" {
+					return "the run failed but an -o file was written"
+				}
+				return ""
+			}
+		}
+		nt := func(i Resp) bool { return i["exit"] != "" && i["ofexists"] == "1" }
+		emit(Case{ID: g + "/fresh", Req: freshReq, Fields: cliFields, Group: g, Meta: meta("the last run alone, the -o path does not exist (reference of the group)"), Oracle: oracle(false), NonTrivial: nt})
+		gf := []string{"exit", "out", "stderr", "ofile", "ofexists"}
+		if !lastOK {
+			gf = []string{"exit", "out", "stderr"} // a failed run leaves the file as the history left it
+		}
+		// the real history: the binary is run for the earlier command lines, in the same directory
+		hc := Case{ID: g + "/history", Req: CliHistoryReq(argvs[:last], argvs[last], nil, false, disk, target), Fields: cliFields, ModelReq: freshReq, Group: g, GroupFields: gf,
+			Meta: meta("all the runs, one after the other, in one directory"), Oracle: oracle(true), NonTrivial: nt}
+		if !lastOK && beforeExists {
+			hc.Fields = []string{"exit", "out", "err"}
+		}
+		emit(hc)
+		// the same history as a file: the -o path holds what the earlier run left (known to the model too)
+		if beforeExists {
+			pre := append(append([]CliFile{}, disk...), CliFile{Name: target, Data: before})
+			emit(Case{ID: g + "/leftover", Req: CliReq(argvs[last], nil, false, pre, target), Fields: cliFields, Group: g, GroupFields: gf,
+				Meta: meta(fmt.Sprintf("the last run alone, the -o path holds the %d bytes the earlier run wrote", len(before))), Oracle: oracle(true), NonTrivial: nt})
+		}
+		// twice the same run: the second must leave the same bytes
+		if lastOK && i%4 == 0 {
+			emit(Case{ID: g + "/twice", Req: CliHistoryReq([][]string{argvs[last]}, argvs[last], nil, false, disk, target), Fields: cliFields, ModelReq: freshReq, Group: g, GroupFields: gf,
+				Meta: meta("the last run twice"), Oracle: oracle(true), NonTrivial: nt})
+		}
+	}
+}
+
+func init() {
+	register(Family{
+		Name: "shared-arguments", Prop: "C10",
+		Rule: "the library driven like an embedder that keeps its selector list and its file list in ONE slice each and calls EvalProgram again and again: `seq r1|…|rk|test` where the sub-requests with the same selector (file) field are handed the very same []string ([]InputFile) object (impl.go seqShared). Selector lists: a blank / whitespace-only entry before non-blank ones, in the middle, many, last, only; duplicates (adjacent and apart); unsorted; long (8-64 entries, with and without blanks); entries with leading / trailing white space. File lists: one file; two to four with unsorted names, a duplicate name, an empty name, an empty file. History: the same request 1-3 times, other programs with the same lists, the same selector list with another file. The answer of the last run must equal the answer of the run alone (Group on class, out, json; both compared with the model) and of a brand-new process (every response field), and no run may modify its arguments (the worker compares the slices after every run: `argsmod`)",
+		Gen:  c10SharedArguments,
+	})
+	register(Family{
+		Name: "o-file-history", Prop: "C10",
+		Rule: "file-system history through the REAL BINARY: two or three runs with -o onto the SAME path (documents of 2 bytes to 80 kB in shrinking, growing and random order; programs that keep, grow, shrink or replace the document; 1 in 8 last runs and 1 in 10 earlier runs fail), executed one after the other in one directory (cli flag p=); one Group per scenario: the last run alone on a fresh path (compared with the model; reference), the whole history (exit, stdout, stderr and the bytes of the -o file must equal the reference; the model answers for the fresh path), the last run with the -o path holding what the earlier run wrote (also compared with the model), and every fourth scenario the same run twice; oracle: the file holds exactly GetRootJson's text of the last run (library run in the generator); a failed last run leaves the earlier file untouched",
+		Gen:  c10OFileHistory,
 	})
 }
